@@ -592,11 +592,3 @@ func vRefCycles() (int, []string) {
 
 //@ bounded vRefCycles svg.Parse and Draw on every reference graph over two markers, two clip paths and two masks (16 graphs each incl. self loops and two-cycles): returns without panicking
 //@   props C18 C01
-
-// the text anchor of a <text> element without own text is read from its first child only when that child is
-// text (a defect found and fixed: a shape as first child was dereferenced as a nil text span)
-//@ func (*SVGImage).drawNode$1
-//@   props C18 C01
-//@   modifies anything
-//@   unclaimed call-*-pre* "drawing helpers"
-//@   assert after textAnchor#2: child != nil
